@@ -409,6 +409,19 @@ def positional_map(repo: Repo, rep, prop="C05"):
                     rep.ok("R-POSITIONAL-MAP", m, st, f"{mname}: arguments come from {callee}(value, node), which consults positional_names and node.args")
                 else:
                     rep.violation("R-POSITIONAL-MAP", m, st, f"GenericCallAdapter.{mname} takes its arguments from `{callee}`, which does not map positional source arguments through positional_names", construct=f"{mname}:{callee}")
+    # the helper that moves the arguments written by position out of the keyword map: positions are consecutive, so at the first
+    # positional name the value does not report (a field hidden by repr=False) the walk *stops* - continuing would pair every
+    # later node one slot too early
+    for g_ in [x for x in repo.pkg_funcs() if x.cls is not None and x.cls.name == "GenericCallAdapter" and any(isinstance(y, ast.Attribute) and y.attr == "positional_names" for y in body_nodes(x.node)) and any(isinstance(y, ast.Attribute) and y.attr == "args" for y in body_nodes(x.node))]:
+        for lp in [x for x in body_nodes(g_.node) if isinstance(x, ast.For) and "positional_names" in norm(x.iter)]:
+            v_ = norm(lp.target)
+            for iff in [x for x in ast.walk(lp) if isinstance(x, ast.If) and isinstance(x.test, ast.Compare) and len(x.test.ops) == 1 and isinstance(x.test.ops[0], ast.NotIn) and norm(x.test.left) == v_]:
+                n += 1
+                leaves = [y for y in iff.body if isinstance(y, (ast.Break, ast.Return, ast.Raise))]
+                if leaves:
+                    rep.ok("R-POSITIONAL-MAP", g_, iff, "the positional walk stops at the first name the value does not report")
+                else:
+                    rep.violation("R-POSITIONAL-MAP", g_, iff, f"{g_.qualname} skips a positional name that the value does not report (`{short(iff, 40)}` does not leave the loop): the arguments behind it are paired with the node of their left neighbour - a fix is written onto the wrong argument", construct=f"{g_.qualname}:skip-not-stop")
     rep.floor("R-POSITIONAL-MAP", "argument sources in assign/items", n, 2)
     for c in repo.subclasses(g):
         am = c.methods.get("arguments")
